@@ -303,6 +303,46 @@ class Render:
 EXTRA_BOUNDS = ["AsRef<[u8]>", "Into<Vec<u8>>", "Into<[u8; 32]>", "Deref", "Borrow<[u8]>", "ToString", "Into<String>", "Into<Box<[u8]>>"]
 
 
+ALIAS_RULES = {
+    "SignedToken": ("paseto_core::SignedToken", ["M", "F"]), "EncryptedToken": ("paseto_core::EncryptedToken", ["M", "F"]),
+    "UnsignedToken": ("paseto_core::UnsignedToken", ["M", "F"]), "UnencryptedToken": ("paseto_core::UnencryptedToken", ["M", "F"]),
+    "LocalKey": ("paseto_core::LocalKey", []), "PublicKey": ("paseto_core::PublicKey", []), "SecretKey": ("paseto_core::SecretKey", []),
+    "KeyId": ("paseto_core::paserk::KeyId", ["K"]), "KeyText": ("paseto_core::paserk::KeyText", ["K"]),
+    "SealedKey": ("paseto_core::paserk::SealedKey", []),
+    "PasswordWrappedLocalKey": ("paseto_core::paserk::PasswordWrappedKey", ["paseto_core::version::Local"]),
+    "PasswordWrappedSecretKey": ("paseto_core::paserk::PasswordWrappedKey", ["paseto_core::version::Secret"]),
+    "PieWrappedLocalKey": ("paseto_core::paserk::PieWrappedKey", ["paseto_core::version::Local"]),
+    "PieWrappedSecretKey": ("paseto_core::paserk::PieWrappedKey", ["paseto_core::version::Secret"]),
+}
+
+
+def alias_probes():
+    """crate-level `pub type` aliases (what programs are normally written against): an identity function between
+    the alias and the generic type its NAME promises compiles iff the two are the same type"""
+    import re
+    out = []
+    for crate in ["paseto-v1", "paseto-v2", "paseto-v3", "paseto-v3-aws-lc", "paseto-v4", "paseto-v4-sodium"]:
+        lib = os.path.join(REPO, crate, "src", "lib.rs")
+        src = re.sub(r"//[^\n]*", "", open(lib, encoding="utf-8").read())
+        cname = crate.replace("-", "_")
+        ver = "%s::core::V%s" % (cname, crate.split("-")[1][1])
+        for name, params in re.findall(r"\bpub\s+type\s+(\w+)\s*(?:<([^=]*?)>)?\s*=", src):
+            rule = ALIAS_RULES.get(name)
+            if rule is None:
+                out.append({"term": "alias: %s::%s (unknown alias)" % (cname, name), "program": None})
+                continue
+            generic, rest = rule
+            gparams = [a for a in rest if len(a) == 1]
+            bounds = {"M": "M", "F": "F", "K": "K: paseto_core::key::KeyType"}
+            decl = "<%s>" % ", ".join(bounds[a] for a in gparams) if gparams else ""
+            use = "<%s>" % ", ".join(gparams) if gparams else ""
+            expected = "%s<%s>" % (generic, ", ".join([ver] + rest))
+            prog = "#![allow(unused)]\npub fn to_alias%s(x: %s) -> %s::%s%s { x }\npub fn from_alias%s(x: %s::%s%s) -> %s { x }\n" % (
+                decl, expected, cname, name, use, decl, cname, name, use, expected)
+            out.append({"term": "alias: %s::%s = %s" % (cname, name, expected), "program": prog})
+    return out
+
+
 def op_class(term):
     t = parse_term(term)
     if t[0] in ("OSeal", "OUnseal", "OTrait"):
@@ -396,6 +436,9 @@ def main():
                         continue
                     extras.append({"term": name, "v": v, "k": k, "w": w})
 
+    aliases = alias_probes() if (only is None or str(only).startswith("alias:")) else []
+    if only is not None:
+        aliases = [x for x in aliases if x["term"] == only]
     workdir = os.path.join(OUT, "c18_probes_%d" % os.getpid())
     os.makedirs(workdir, exist_ok=True)
     jobs = []
@@ -407,6 +450,11 @@ def main():
         e["idx"] = len(ops) + j
         progs[e["idx"]] = R.extra(e["v"], e["k"], e["w"])
         jobs.append((e["idx"], progs[e["idx"]], workdir, externs))
+    for j, al in enumerate(aliases):
+        al["idx"] = len(ops) + len(extras) + j
+        if al["program"] is not None:
+            progs[al["idx"]] = al["program"]
+            jobs.append((al["idx"], al["program"], workdir, externs))
     results = {}
     with concurrent.futures.ThreadPoolExecutor(WORKERS) as ex:
         for idx, ok, codes, first in ex.map(compile_one, jobs):
@@ -460,6 +508,17 @@ def main():
         negatives.add(e["term"])
         if ok:
             finding(violations, "secret-without-expose", "`%s` holds: key bytes are reachable without expose_key" % e["term"], e, e["idx"])
+    for al in aliases:
+        count("class:crate-alias")
+        if al["program"] is None:
+            count("violation:alias-unknown")
+            violations.append({"class": "alias-unknown", "what": "%s is not in the reviewed alias table" % al["term"], "replay": {"op": al["term"]}})
+            continue
+        ok, codes, first = results[al["idx"]]
+        if not ok:
+            finding(violations, "alias-is-another-type", "the crate-level alias does not name the type its name promises: `%s` is rejected: %s" % (al["term"], first), al, al["idx"])
+        else:
+            negatives.add(al["term"])
     # samples: a few programs of different classes
     seen = set()
     for o in chosen:
